@@ -403,6 +403,48 @@ def lock_events(body, acq, helpers=()):
     return evs
 
 
+def strip_test_modules(t):
+    """remove `#[cfg(test)] mod … { … }` blocks and `#[test] fn`s"""
+    out = t
+    while True:
+        m = re.search(r"#\[cfg\(test\)\]\s*(?:pub\s+)?mod\s+\w+\s*\{", out)
+        if not m:
+            break
+        try:
+            blk = block_after(out, m.end() - 1)
+        except Unavailable:
+            break
+        out = out[:m.start()] + out[m.end() - 1 + len(blk):]
+    return out
+
+
+GEN_SITE = re.compile(r"\b(\w*Rng\w*)\s*::\s*(from_entropy|from_seed|from_rng|seed_from_u64|from_os_rng|new)\s*\(|\bthread_local\s*!|(?:\brng\s*\(\s*\)|\brng\b|\*\s*rng\s*\)|\bguard\b|\*\s*guard\s*\))\s*\.\s*clone\s*\(")
+
+
+def rng_sites(srcs):
+    """every place of the library that constructs or duplicates a generator:
+    (file::function, what, inside a function that *returns* an instance / generator and has no receiver)"""
+    sites = []
+    for rel, txt in srcs:
+        t = strip_test_modules(txt)
+        fns = [(n, sig, body, t.find(body)) for n, sig, body in functions(t)]
+        for m in GEN_SITE.finditer(t):
+            what = "thread_local" if "thread_local" in m.group(0) else ("clone" if "clone" in m.group(0) else m.group(1) + "::" + m.group(2))
+            encl = None
+            for n, sig, body, pos in fns:
+                if pos >= 0 and pos <= m.start() < pos + len(body):
+                    if encl is None or len(body) < len(encl[2]):
+                        encl = (n, sig, body)
+            if encl is None:
+                sites.append((rel + "::<item>", what, False))
+                continue
+            n, sig, _ = encl
+            ret = sig.split("->", 1)[1] if "->" in sig else ""
+            ctor = bool(re.search(r"\b(Self|Covercrypt|\w*Rng\w*|Mutex)\b", ret)) and not re.search(r"\(\s*&?\s*(mut\s+)?self\b", sig) and what != "clone"
+            sites.append((rel + "::" + n, what, ctor))
+    return sites
+
+
 def gen_locks(repo):
     head = ["/-! GENERATED by tools/gen_tables.py from /repo/src/api.rs and encrypted_header.rs on every check run. Do not edit. -/",
             "namespace CC.Generated",
@@ -478,10 +520,17 @@ def gen_locks(repo):
         out = head + ["def locksAvailable : Bool := true", "def lockTable : List (String × List LockEv) := ["]
         out.append(",\n".join(f'  ("{n}", [{", ".join(ev_lean(e) for e in ev)}])' for n, ev in rows))
         out.append("]")
+        sites = rng_sites(srcs)
+        out.append("/-- every place of the library (tests excluded) that constructs or duplicates a generator: where, what, and")
+        out.append("whether that place is a constructor (a function without receiver that returns an instance or a generator) -/")
+        out.append("def rngSites : List (String × String × Bool) := [")
+        out.append(",\n".join(f'  ("{w}", "{k}", {"true" if c else "false"})' for w, k, c in sites))
+        out.append("]")
         out.append("end CC.Generated")
-        return "\n".join(out) + "\n", {"locks": {"ok": True, "functions": len(rows), "guard_helpers": aliases}}
+        return "\n".join(out) + "\n", {"locks": {"ok": True, "functions": len(rows), "guard_helpers": aliases, "rng_sites": [list(x) for x in sites]}}
     except (Unavailable, OSError) as e:
-        out = head + ["def locksAvailable : Bool := false", "def lockTable : List (String × List LockEv) := []", "end CC.Generated"]
+        out = head + ["def locksAvailable : Bool := false", "def lockTable : List (String × List LockEv) := []",
+                      "def rngSites : List (String × String × Bool) := []", "end CC.Generated"]
         return "\n".join(out) + "\n", {"locks": {"ok": False, "reason": str(e)}}
 
 
